@@ -19,7 +19,7 @@ func TestReproOverlappingChunksLoseSamples(t *testing.T) {
 	c := Case{L: 1, Cuts: pickCuts([][]ival{{{0, 3}, {2, 5}}}), Place: []int{0}, Supports: true, Identical: true, Step: 15000, Batch: 1}
 	for _, dd := range []bool{false, true} {
 		c.Dedup = dd
-		got, err := c.run()
+		got, err := c.run(newFrameRec())
 		if err != nil {
 			t.Fatal(err)
 		}
